@@ -1,11 +1,14 @@
 // C01 driver (gate): the real r1::arena_slot (src/tbb/arena_slot.cpp compiled here under the atomic prelude).
-//   gate : nthreads, owner script length, (op arg)*  [1 t = spawn task t | 2 0 = get_task], per thief its number of steals, -1, schedule
+//   gate : nthreads, owner script length, (op arg)*  [1 t = spawn task t with isolation tag t/100 | 2 iso = get_task with isolation tag iso], per thief its number of steals, -1, schedule
 //          output: events on head (1) / tail (2) / task_pool (3) as "tid var kind order before after ok", notes "tid 0 100+op 0 result 0 1",
-//          then -7 head tail lock finished
+//          then -7 head tail lock finished live(non-null entries in [head,tail))
 //   mt   : see drv_sched.cpp for the scheduler-level oracle
 #include "drv/common.h"
 #include "gate/gate.h"
 #include "tbb/arena_slot.cpp"
+#include "tbb/arena.h"
+#include "tbb/thread_data.h"
+#include "tbb/task_dispatcher.h"
 using namespace vh;
 using namespace tbb::detail;
 
@@ -28,13 +31,20 @@ int main(int argc, char** argv) {
         std::vector<int> steals; for (int t = 1; t < nt; ++t) steals.push_back((int)c[p++]);
         p++;
         std::vector<int> sched; for (; p < c.size(); ++p) sched.push_back((int)c[p]);
-        r1::execution_data_ext ed{};                    // never dereferenced: no isolation, no proxies
-        r1::arena* fake_arena = reinterpret_cast<r1::arena*>(slot_mem + sizeof(r1::arena_slot));
+        // get_task with skipped tasks calls ed.task_disp->m_thread_data->my_arena->advertise_new_work<wakeup>(): give it a zeroed arena
+        // whose pool state is already "full" (the call then returns after one load), reached through zeroed dispatcher / thread_data
+        static std::vector<char> arena_mem(sizeof(r1::arena) + 4096), td_mem(sizeof(r1::thread_data) + 256), disp_mem(sizeof(r1::task_dispatcher) + 256);
+        std::fill(arena_mem.begin(), arena_mem.end(), 0); std::fill(td_mem.begin(), td_mem.end(), 0); std::fill(disp_mem.begin(), disp_mem.end(), 0);
+        r1::arena* fake_arena = reinterpret_cast<r1::arena*>(arena_mem.data() + 2048);
+        fake_arena->my_pool_state.my_state.store(1, std::memory_order_relaxed);
+        r1::thread_data* fake_td = reinterpret_cast<r1::thread_data*>(td_mem.data()); fake_td->my_arena = fake_arena;
+        r1::task_dispatcher* fake_disp = reinterpret_cast<r1::task_dispatcher*>(disp_mem.data()); fake_disp->m_thread_data = fake_td;
+        r1::execution_data_ext ed{}; ed.task_disp = fake_disp;
         std::vector<TTask*> tasks;
         gate::spawn([&] {
             for (auto& oa : owner) {
-                if (oa.first == 1) { TTask* t = new TTask(oa.second); tasks.push_back(t); slot->spawn(*t); gate::note(1, 0); }
-                else { long res = 0; if (slot->is_task_pool_published()) { d1::task* t = slot->get_task(ed, r1::no_isolation); res = t ? static_cast<TTask*>(t)->id : 0; } gate::note(2, res); }
+                if (oa.first == 1) { TTask* t = new TTask(oa.second); r1::task_accessor::isolation(*t) = (r1::isolation_type)(oa.second / 100); tasks.push_back(t); slot->spawn(*t); gate::note(1, 0); }
+                else { long res = 0; if (slot->is_task_pool_published()) { d1::task* t = slot->get_task(ed, (r1::isolation_type)oa.second); res = t ? static_cast<TTask*>(t)->id : 0; } gate::note(2, res); }
             }
         });
         for (int n : steals) gate::spawn([&, n] { for (int k = 0; k < n; ++k) { d1::task* t = slot->steal_task(*fake_arena, r1::no_isolation, 1); gate::note(3, t ? static_cast<TTask*>(t)->id : 0); } });
@@ -50,6 +60,8 @@ int main(int argc, char** argv) {
         }
         o.put(-7); o.put((long)slot->head.load(std::memory_order_relaxed)); o.put((long)slot->tail.load(std::memory_order_relaxed));
         o.put(canon_lock((unsigned long long)slot->task_pool.load(std::memory_order_relaxed))); o.put(ok ? 1 : 0);
+        { long live = 0; long h = (long)slot->head.load(std::memory_order_relaxed), t = (long)slot->tail.load(std::memory_order_relaxed);
+          for (long i = h; i < t && slot->task_pool_ptr; ++i) if (slot->task_pool_ptr[i]) live++; o.put(live); }      // tasks still in the deque (holes excluded)
         if (!ok) { o.word("HANG"); o.flush(); _exit(3); }
         o.flush();
         slot->free_task_pool();
